@@ -35,11 +35,11 @@ func main() {
 	}
 	switch os.Args[1] {
 	case "job":
-		os.Exit(cmdJob(os.Args[2:]))
+		os.Exit(cleanRaceLogs(cmdJob(os.Args[2:])))
 	case "check":
-		os.Exit(cmdCheck(os.Args[2:]))
+		os.Exit(cleanRaceLogs(cmdCheck(os.Args[2:])))
 	case "replay":
-		os.Exit(cmdReplay(os.Args[2:]))
+		os.Exit(cleanRaceLogs(cmdReplay(os.Args[2:])))
 	case "warm":
 		b, err := build.Build(repoDir(), filepath.Join(verifDir(), "sim"))
 		if b != nil {
@@ -124,4 +124,10 @@ func cmdJob(args []string) int {
 	pb, _ := json.MarshalIndent(res, "", " ")
 	fmt.Println(string(pb))
 	return 0
+}
+
+// cleanRaceLogs removes the directory the race detector of this process's workers logged into (race pass only).
+func cleanRaceLogs(rc int) int {
+	os.RemoveAll(filepath.Join(os.TempDir(), fmt.Sprintf("verif-race-%d", os.Getpid())))
+	return rc
 }
